@@ -465,7 +465,7 @@ impl FatVolume {
                                 first_dir_block_num = self.cluster_to_block(c);
                                 Some(c)
                             }
-                            _ => None,
+                            Err(e) => return Err(e),
                         };
                     } else {
                         current_cluster = None;
@@ -529,7 +529,7 @@ impl FatVolume {
                             first_dir_block_num = self.cluster_to_block(c);
                             Some(c)
                         }
-                        _ => None,
+                        Err(e) => return Err(e),
                     };
                 }
                 // We ran out of clusters in the chain, and apparently we weren't
@@ -725,7 +725,8 @@ impl FatVolume {
                         first_dir_block_num = self.cluster_to_block(n);
                         Some(n)
                     }
-                    _ => None,
+                    Err(Error::EndOfFile) => None,
+                    Err(e) => return Err(e),
                 };
             } else {
                 current_cluster = None;
@@ -771,7 +772,8 @@ impl FatVolume {
             }
             current_cluster = match self.next_cluster(block_cache, cluster) {
                 Ok(n) => Some(n),
-                _ => None,
+                Err(Error::EndOfFile) => None,
+                Err(e) => return Err(e),
             };
         }
         Ok(())
@@ -825,7 +827,8 @@ impl FatVolume {
                                 first_dir_block_num = self.cluster_to_block(n);
                                 Some(n)
                             }
-                            _ => None,
+                            Err(Error::EndOfFile) => None,
+                            Err(e) => return Err(e),
                         };
                     } else {
                         current_cluster = None;
@@ -853,7 +856,8 @@ impl FatVolume {
                     }
                     current_cluster = match self.next_cluster(block_cache, cluster) {
                         Ok(n) => Some(n),
-                        _ => None,
+                        Err(Error::EndOfFile) => None,
+                        Err(e) => return Err(e),
                     }
                 }
                 Err(Error::NotFound)
@@ -941,7 +945,8 @@ impl FatVolume {
                                 first_dir_block_num = self.cluster_to_block(n);
                                 Some(n)
                             }
-                            _ => None,
+                            Err(Error::EndOfFile) => None,
+                            Err(e) => return Err(e),
                         };
                     } else {
                         current_cluster = None;
@@ -978,7 +983,8 @@ impl FatVolume {
                     // Find the next cluster
                     current_cluster = match self.next_cluster(block_cache, cluster) {
                         Ok(n) => Some(n),
-                        _ => None,
+                        Err(Error::EndOfFile) => None,
+                        Err(e) => return Err(e),
                     }
                 }
                 // Ok, give up
@@ -1052,8 +1058,7 @@ impl FatVolume {
                     let block = block_cache
                         .read(this_fat_block_num)
                         .map_err(Error::DeviceError)?;
-                    while this_fat_ent_offset <= Block::LEN - 2
-                        && current_cluster.0 < end_cluster.0
+                    while this_fat_ent_offset <= Block::LEN - 2 && current_cluster.0 < end_cluster.0
                     {
                         let fat_entry = LittleEndian::read_u16(
                             &block[this_fat_ent_offset..=this_fat_ent_offset + 1],
@@ -1084,8 +1089,7 @@ impl FatVolume {
                     let block = block_cache
                         .read(this_fat_block_num)
                         .map_err(Error::DeviceError)?;
-                    while this_fat_ent_offset <= Block::LEN - 4
-                        && current_cluster.0 < end_cluster.0
+                    while this_fat_ent_offset <= Block::LEN - 4 && current_cluster.0 < end_cluster.0
                     {
                         let fat_entry = LittleEndian::read_u32(
                             &block[this_fat_ent_offset..=this_fat_ent_offset + 3],
